@@ -42,6 +42,9 @@ def run(rep, ctx, tier):
             # no zip: the proof list may be paired with the claims by position (bounds-checked indexing)
             n = R4.run_positional(rep, ctx, a, "R4a")
         # the verdicts of the per-point checks are accumulated, not overwritten by the last one
+        if key == "ipa.batch_check":
+            # the batch verifier pins the number of rounds of every proof, like the single check does (F8)
+            R4.run_rounds(rep, ctx, a, "ipa_pc::data_structures::Proof", "l_vec", "::succinct_check", "R4r")
         R1D.run_last_value(rep, ctx, a, "R1L")
         # every claim a batch loop extracts takes part in the combined equation on every path to the next claim
         R1D.run_values(rep, ctx, a, "R1d")
